@@ -9,6 +9,44 @@ LLVM = "/usr/lib/llvm-14"
 JOBS = int(os.environ.get("VERIF_JOBS", "16"))
 
 _scratch = None
+_ir_cache = {}
+
+# mutation overlay (selftests): virtual path -> replacement file; applied to every front end
+OVERLAY = {}
+
+
+def set_overlay(mapping):
+    """Install a {repo path: replacement} overlay and drop every cache that depends on sources."""
+    OVERLAY.clear()
+    exp = {}
+    for k, v in (mapping or {}).items():
+        exp[k] = v
+        rk = os.path.realpath(k)
+        exp[rk] = v
+        # configure-made symlinks (mpn/add_n.c -> mpn/generic/add_n.c) name the same file
+        d = os.path.join(REPO, "mpn")
+        for f in os.listdir(d):
+            fp = os.path.join(d, f)
+            if os.path.islink(fp) and os.path.realpath(fp) == rk:
+                exp[fp] = v
+    OVERLAY.update(exp)
+    _ir_cache.clear()
+    import sa
+    sa._exports.clear()
+    global _gen
+    _gen += 1
+
+
+_gen = 0
+
+
+def overlay_file():
+    if not OVERLAY:
+        return None
+    p = os.path.join(scratch(), "mut-overlay-%d.yaml" % _gen)
+    roots = [{"name": k, "type": "file", "external-contents": v} for k, v in sorted(OVERLAY.items())]
+    json.dump({"version": 0, "case-sensitive": "true", "roots": roots}, open(p, "w"))
+    return p
 
 
 def scratch():
@@ -75,7 +113,10 @@ def tool(name, force=False):
 def bitcode(extra_flags=(), units_=None, tag="built"):
     """Compile every C unit to bitcode in scratch, link, run function-attrs.
     Returns path of the linked+attributed module."""
-    d = os.path.join(scratch(), "bc-" + tag)
+    d = os.path.join(scratch(), "bc-%s-%d" % (tag, _gen))
+    ov = overlay_file()
+    if ov:
+        extra_flags = list(extra_flags) + ["-ivfsoverlay", ov]
     if os.path.exists(os.path.join(d, "all.attrs.bc")):
         return os.path.join(d, "all.attrs.bc")
     os.makedirs(d, exist_ok=True)
@@ -104,7 +145,6 @@ def bitcode(extra_flags=(), units_=None, tag="built"):
     return attrs
 
 
-_ir_cache = {}
 
 
 def ir_facts(tag="built", extra_flags=(), units_=None):
